@@ -57,7 +57,7 @@ fn main() {
     extra_files.sort();
 
     let mut lean = String::new();
-    lean.push_str("import SemverGen.RustPrelude\nimport SemverGen.Winnow\n");
+    lean.push_str("import SemverGen.RustPrelude\nimport SemverGen.Winnow\nimport SemverGen.Bytes\n");
     lean.push_str("/-!\n# Definitions extracted from the Rust source by `translator/` (rs2lean)\n\n");
     lean.push_str("GENERATED FILE — regenerated from /repo/src on every run of ./check; do not edit.\n");
     lean.push_str("Each definition is the body of one function of the crate, construct for construct, over the\n");
